@@ -83,7 +83,7 @@ func (ex *Exec) VerifyFunc(ct *Contract) (res *FuncResult) {
 	// pointer parameters of the same pointee type are assumed pairwise non-aliased (checked at call sites)
 	for i, p := range fn.Params {
 		pt, ok := p.Type().Underlying().(*types.Pointer)
-		if !ok {
+		if !ok || isBigIntPtr(p.Type()) {
 			continue
 		}
 		for _, q := range fn.Params[i+1:] {
@@ -179,7 +179,7 @@ func (ex *Exec) frameObligations(tc *topCtx, fr *frame, st *PState, ct *Contract
 		return
 	}
 	fn := tc.fn
-	modState := map[string]bool{}  // ctx param names with modifies state(ctx)
+	modState := map[string]bool{}    // ctx param names with modifies state(ctx)
 	modKeys := map[string][]string{} // ctx param -> list of get(...) items
 	modPtr := map[string]bool{}
 	modStores := map[string][]string{} // ctx param -> store names
@@ -252,6 +252,15 @@ func (ex *Exec) frameObligations(tc *topCtx, fr *frame, st *PState, ct *Contract
 		if pt, ok := p.Type().Underlying().(*types.Pointer); ok && !modPtr[p.Name()] {
 			if isBigIntPtr(p.Type()) {
 				continue
+			}
+			havoced := false
+			for _, n := range st.notes {
+				if strings.HasPrefix(n, "havoc:") {
+					havoced = true
+				}
+			}
+			if havoced {
+				continue // the heap was forgotten by an unmodelled call: nothing can be said about *p
 			}
 			name, _ := ex.Sorts.Heap(pt.Elem())
 			h1, touched := st.heaps[name]
